@@ -845,10 +845,12 @@ class IteratorQueue(IterableQueue[_ValueT]):
     except Exception as e:  # pylint: disable=broad-exception-caught
       # The iterable can fail before yielding anything, e.g., when opening its
       # source: the consumers have to see this as any other enqueue failure.
-      e.add_note(f'Exception during enqueueing "{self.name}".')
-      logging.exception('chainable: %s', f'"{self.name}" enqueue failed.')
+      # Records the failure first: decorating it can fail for an exception
+      # class that refuses new attributes.
       self._exception = e
       self._stop_enqueue()
+      e.add_note(f'Exception during enqueueing "{self.name}".')
+      logging.exception('chainable: %s', f'"{self.name}" enqueue failed.')
       raise e
     while not self.enqueue_done:
       fetched = False
@@ -869,10 +871,10 @@ class IteratorQueue(IterableQueue[_ValueT]):
               f'"{self.name}" enqueue error ignored, stacktrace:',
           )
           continue
-        e.add_note(f'Exception during enqueueing "{self.name}".')
-        logging.exception('chainable: %s', f'"{self.name}" enqueue failed.')
         self._exception = e
         self._stop_enqueue()
+        e.add_note(f'Exception during enqueueing "{self.name}".')
+        logging.exception('chainable: %s', f'"{self.name}" enqueue failed.')
         raise e
 
 
@@ -993,10 +995,10 @@ class AsyncIteratorQueue(IteratorQueue[_ValueT], AsyncIterableQueue[_ValueT]):
     except Exception as e:  # pylint: disable=broad-exception-caught
       # Same as enqueue_from_iterator: the iterable can fail before yielding
       # anything, the consumers have to see this as any other enqueue failure.
-      e.add_note(f'Exception during async enqueueing {self.name}')
-      logging.exception('chainable: %s', f'{self.name} enqueue failed.')
       self._exception = e
       self._stop_enqueue()
+      e.add_note(f'Exception during async enqueueing {self.name}')
+      logging.exception('chainable: %s', f'{self.name} enqueue failed.')
       raise e
     # Same as enqueue_from_iterator: stops after a stop request or a failure of
     # another enqueuer instead of draining the iterator for nothing.
@@ -1007,10 +1009,10 @@ class AsyncIteratorQueue(IteratorQueue[_ValueT], AsyncIterableQueue[_ValueT]):
       except StopAsyncIteration as e:
         return self._stop_enqueue(*e.args)
       except Exception as e:  # pylint: disable=broad-exception-caught
-        e.add_note(f'Exception during async enqueueing {self.name}')
-        logging.exception('chainable: %s', f'{self.name} enqueue failed.')
         self._exception = e
         self._stop_enqueue()
+        e.add_note(f'Exception during async enqueueing {self.name}')
+        logging.exception('chainable: %s', f'{self.name} enqueue failed.')
         if self.ignore_error:
           return
         raise e
